@@ -771,9 +771,7 @@ impl TcpSession {
         // A live backend handle implies the matching token is present: the
         // two are wired together in `connect_to_backend` and torn down
         // together in `remove_backend` (which clears the token) — they must
-        // never drift apart. (For the pure-TCP proxy `backend` is currently
-        // always `None`, so this is a guard against a future regression that
-        // starts populating it without the token.)
+        // never drift apart.
         if self.backend.is_some() {
             debug_assert!(
                 self.backend_token.is_some(),
@@ -1193,6 +1191,13 @@ impl TcpSession {
 
         self.set_back_token(back_token);
         self.set_back_socket(stream);
+        // Keep the handle of the backend this connection was opened on:
+        // `BackendMap::backend_from_cluster_id` -> `Backend::try_connect`
+        // took one `active_connections` slot, and `remove_backend` (called by
+        // `close_backend` on retry and on close) is what gives it back.
+        // Without the handle the slot was never released and the connection
+        // result never reached the backend's retry policy.
+        self.backend = Some(backend.clone());
 
         self.metrics.backend_id = Some(backend.borrow().backend_id.clone());
         self.metrics.backend_start();
